@@ -37,7 +37,7 @@ class ObjectDomain(LazyGenerators, EffectDomain):
     closure_cells = True   # closures share their free variables with the defining frame through cells that outlive it
     generator_objects = True   # a generator function call evaluates to an iterator object (position shared by all holders)
     heap = True            # a list / dict that gets a second owner becomes a heap object: both owners see every change
-    IDENTITY_TAGS = EffectDomain.IDENTITY_TAGS + ("inst", "classref", "ctorref", "excclass", "func", "method", "boundmethod", "userfn", "pytype", "seqiter", "itercount", "genobj")
+    IDENTITY_TAGS = EffectDomain.IDENTITY_TAGS + ("inst", "classref", "ctorref", "excclass", "func", "method", "boundmethod", "userfn", "pytype", "seqiter", "itercount", "genobj", "iterobj")
 
     # -- values ---------------------------------------------------------------------------------
     def truth(self, value):
@@ -1339,7 +1339,7 @@ class ObjectDomain(LazyGenerators, EffectDomain):
         if d == "iter" and len(call.args) == 1 and not call.keywords:
             # iter(<exact sequence>): an iterator object with its own position; next() advances it for every holder
             got = interp.eval(call.args[0], st, fr)
-            ITERATORS = (("seqiter",), ("itercount",), ("genobj",), ("lazycomp",), ("calliter",), ("repeat",))
+            ITERATORS = (("seqiter",), ("itercount",), ("genobj",), ("lazycomp",), ("calliter",), ("repeat",), ("iterobj",))
             if not all(r.kind == "exc" or (isinstance(r.value, tuple) and r.value[:1] in ITERATORS) for r in got):
                 got = interp._forced(got, fr)
             if got and all(r.kind == "exc" or interp._exact_elements(r.value) is not None or (isinstance(r.value, tuple) and r.value[:1] in ITERATORS) for r in got):
@@ -1363,7 +1363,7 @@ class ObjectDomain(LazyGenerators, EffectDomain):
             return out
         if d == "next" and 1 <= len(call.args) <= 2 and not call.keywords:
             got = interp.eval(call.args[0], st, fr)
-            if got and all(r.kind == "exc" or (isinstance(r.value, tuple) and r.value[:1] in (("seqiter",), ("itercount",), ("genobj",), ("lazycomp",))) for r in got):
+            if got and all(r.kind == "exc" or (isinstance(r.value, tuple) and r.value[:1] in (("seqiter",), ("itercount",), ("genobj",), ("lazycomp",), ("iterobj",))) for r in got):
                 out = []
                 for r in got:
                     if r.kind == "exc":
@@ -1585,7 +1585,7 @@ class ObjectDomain(LazyGenerators, EffectDomain):
         return [(interp._exact_elements(value), st)]
 
     def pullable(self, v):
-        return isinstance(v, tuple) and v[:1] in (("calliter",), ("repeat",), ("seqiter",), ("itercount",), ("genobj",), ("lazycomp",)) or (isinstance(v, tuple) and v[:1] == ("lazymap",) and len(v) == 3 and self.pullable(v[2]))
+        return isinstance(v, tuple) and v[:1] in (("calliter",), ("repeat",), ("seqiter",), ("itercount",), ("genobj",), ("lazycomp",), ("iterobj",), ("chain",), ("ifilter",)) or (isinstance(v, tuple) and v[:1] == ("lazymap",) and len(v) == 3 and self.pullable(v[2]))
 
     def pull(self, interp, seq, st, fr):
         return self._pull(interp, seq, st, fr)
@@ -1623,6 +1623,56 @@ class ObjectDomain(LazyGenerators, EffectDomain):
             return [("item", seq[1], ("tuple",) + tuple(seq[2:]), st)]
         if isinstance(seq, tuple) and seq[:1] == ("repeat",) and len(seq) == 2:
             return [("item", seq[1], seq, st)]
+        if isinstance(seq, tuple) and seq[:1] == ("iterobj",) and len(seq) == 2:
+            out = []
+            for kind, el, rest, s1 in self._pull(interp, st.get(f"it.{seq[1]}", TOP), st, fr):
+                out.append((kind, el, seq, s1.set(f"it.{seq[1]}", rest)) if kind == "item" else (kind, el, None, s1.set(f"it.{seq[1]}", ("tuple",)) if kind == "end" else s1))
+            return out
+        if isinstance(seq, tuple) and seq[:1] == ("chain",) and len(seq) == 2:
+            if not seq[1]:
+                return [("end", None, None, st)]
+            out = []
+            for kind, el, rest, s1 in self._pull(interp, seq[1][0], st, fr):
+                if kind == "item":
+                    out.append(("item", el, ("chain", (rest,) + tuple(seq[1][1:])), s1))
+                elif kind == "end":
+                    out.extend(self._pull(interp, ("chain", tuple(seq[1][1:])), s1, fr))
+                else:
+                    out.append((kind, el, None, s1))
+            return out
+        if isinstance(seq, tuple) and seq[:1] == ("ifilter",) and len(seq) == 4:
+            _, mode, pred, src = seq
+            out = []
+            work = [(src, st)]
+            for _ in range(self.generator_budget):
+                nxt = []
+                for cur, s0 in work:
+                    for kind, el, rest, s1 in self._pull(interp, cur, s0, fr):
+                        if kind != "item":
+                            out.append((kind, el, None, s1))
+                            continue
+                        verdicts = [val({"T": TRUE, "F": FALSE}.get(self.truth(el), ("bool",)), s1)] if pred == NONE else self.apply(interp, pred, [el], [], s1, fr)
+                        for r in verdicts:
+                            t = self.truth(r.value) if r.kind == "val" else None
+                            if r.kind == "exc":
+                                out.append(("exc", r.value, None, r.state))
+                            elif t not in ("T", "F"):
+                                out.append(("unknown", None, None, r.state))
+                            elif mode == "takewhile":
+                                out.append(("item", el, ("ifilter", mode, pred, rest), r.state) if t == "T" else ("end", None, None, r.state))
+                            elif mode == "dropwhile":
+                                if t == "T":
+                                    nxt.append((rest, r.state))
+                                else:
+                                    out.append(("item", el, rest, r.state))   # from here on everything passes
+                            elif (t == "T") == (mode == "filter"):
+                                out.append(("item", el, ("ifilter", mode, pred, rest), r.state))
+                            else:
+                                nxt.append((rest, r.state))
+                work = list(dict.fromkeys(nxt))
+                if not work:
+                    return out
+            raise Undecided(f"{mode} does not find its next element within the analysis budget")
         if isinstance(seq, tuple) and seq[:1] == ("genobj",) and len(seq) == 2:
             return self.pull_generator(interp, seq, st, fr)
         if isinstance(seq, tuple) and seq[:1] == ("lazycomp",) and len(seq) == 6:
@@ -1695,10 +1745,19 @@ class ObjectDomain(LazyGenerators, EffectDomain):
                 return out
         raise Undecided("takewhile over an endless sequence did not stop within the analysis budget")
 
+    def _iterator_object(self, description, st):
+        """An iterator with a position of its own (whoever holds it sees it advance): ``description`` is what is left of it."""
+        n = st.get("ev.iters", 0)
+        return val(("iterobj", n), st.set("ev.iters", n + 1).set(f"it.{n}", description))
+
     def _itertool(self, interp, name, args, st, fr):
         out = []
         if name == "takewhile" and len(args) == 2 and isinstance(args[1], tuple) and args[1][:1] in (("lazymap",), ("repeat",)):
             return self._takewhile_lazily(interp, args[0], args[1], st, fr)
+        if self.lazy_generators and name == "chain" and any(self.pullable(a) for a in args):
+            return [self._iterator_object(("chain", tuple(args)), st)]   # (a part is produced on demand: so is the chain)
+        if self.lazy_generators and name in ("filter", "filterfalse", "dropwhile", "takewhile") and len(args) == 2 and self.pullable(args[1]):
+            return [self._iterator_object(("ifilter", name, args[0], args[1]), st)]
         if name == "compress" and len(args) == 2:
             for data, s1 in self._elements(interp, args[0], st, fr):
                 for sel, s2 in self._elements(interp, args[1], s1, fr):
